@@ -23,6 +23,13 @@ func init() {
 			}
 		}
 	}
+	if p02 := properties["C02"]; p02 != nil {
+		for _, r := range p02.Rules {
+			if r.Name == "R-CACHE-SIBLINGS" {
+				share("C01", &RuleDoc{Name: "R-CACHE-SIBLINGS", Text: "(shared with C02) one packet occupies at most one replay slot of the cache, so a joining consumer is not sent the same packet twice.", Run: r.Run})
+			}
+		}
+	}
 	agg := &RuleDoc{Name: "R-AGG-MIN-SIZE", Text: "The four aggregation scans (STAP-A / AP in the depacketisers and in the GOP-cache classifiers; sibling rule) refuse a declared unit size only when it is zero: a one-byte NAL unit (end of sequence / end of stream) inside an aggregate is legal and must not end the scan.", Run: ruleAggMinSize}
 	share("C06", agg)
 	share("C02", agg)
@@ -41,7 +48,13 @@ func init() {
 	share("C07", &RuleDoc{Name: "R-DEMUXER-NEVER-TYPED-NIL", Text: "When rtp.NewDemuxer fails, the stream's rtpDemuxer field is re-assigned a usable placeholder before prepareOtherStream returns (the failed call stores a typed nil into the interface field).", Run: ruleDemuxerNeverTypedNil})
 	share("C07", &RuleDoc{Name: "R-UDP-ERROR-NOT-FATAL", Text: "udpConsumer.Consume does not close the consumer on a datagram send error: one oversized packet (legal on TCP, too long for a datagram) must not end delivery of the following good packets.", Run: ruleUdpErrorNotFatal})
 	share("C06", &RuleDoc{Name: "R-WRAP-BOTH-WAYS", Text: "The 32-bit timestamp extension counts a wrap forwards and a step back across the wrap (a reordered or B-frame timestamp from before it): the wrap counter is both incremented and decremented.", Run: ruleWrapBothWays})
+	share("C06", &RuleDoc{Name: "R-MIN-PAYLOAD", Text: "The depacketisers' entry guards refuse only payloads shorter than three bytes: a three-byte unit (the H.265 access-unit delimiter) sent as its own packet is a legal single NAL unit.", Run: ruleMinPayload})
+	share("C01", &RuleDoc{Name: "R-PROXY-REOPENS", Text: "multicastProxy.AddMember clears the proxy's closed flag on the path where it attaches the proxy to the stream again: a proxy that was closed when its last member left delivers again after a re-join.", Run: ruleProxyReopens})
 	addMutants(
+		&Mutant{Prop: "C06", Name: "c06-h265-min-payload-four", File: "av/format/rtp/h265_depacketizer.go",
+			Old: "\tpayload := packet.Payload()\n\tif len(payload) < 3 {", New: "\tpayload := packet.Payload()\n\tif len(payload) <= 3 {", Expect: "R-MIN-PAYLOAD"},
+		&Mutant{Prop: "C01", Name: "c01-proxy-stays-closed", File: "service/rtsp/multicast_proxy.go",
+			Old: "\t\tproxy.closed = false\n", New: "", Expect: "R-PROXY-REOPENS"},
 		&Mutant{Prop: "C10", Name: "c10-segment-close-deferred", File: "av/format/hls/segmentgenerator.go",
 			Old: "\tcurr.file.close()\n\tif curr.duration*1000", New: "\tdefer curr.file.close()\n\tif curr.duration*1000", Expect: "R-SEGMENT-FLUSHED-BEFORE-LISTED"},
 		&Mutant{Prop: "C10", Name: "c10-clear-guard-constant", File: "av/format/hls/playlist.go",
@@ -748,4 +761,95 @@ func ruleWrapBothWays(c *Ctx) {
 		}
 	}
 	c.Decide(inc && dec, "wrap-both-ways", p.Pos(fn.Pos()), "wrap counter incremented and decremented", fmt.Sprintf("the wrap counter is incremented (%v) / decremented (%v): a timestamp from before the 32-bit wrap that arrives after a wrapped one (B-frames in decode order, UDP reordering) is taken for another forward wrap and every later frame stays shifted by 2^32 ticks", inc, dec))
+}
+
+func ruleMinPayload(c *Ctx) {
+	p := c.P
+	n := 0
+	for _, t := range []string{"h264Depacketizer", "h265Depacketizer"} {
+		fn := p.Func("av/format/rtp", "(*"+t+").Depacketize")
+		if fn == nil {
+			c.Lost("rtp."+t+".Depacketize", "not found")
+			continue
+		}
+		c.touched(fname(fn))
+		// the first length test of the payload in the entry block
+		var first *ssa.BinOp
+		for _, ins := range fn.Blocks[0].Instrs {
+			bo, ok := ins.(*ssa.BinOp)
+			if !ok || first != nil {
+				continue
+			}
+			if call, ok := stripConv(bo.X).(*ssa.Call); ok && calleeName(&call.Call) == "builtin.len" {
+				first = bo
+			}
+		}
+		if first == nil {
+			continue // no entry guard: nothing is refused by length here (bounds are C07's concern)
+		}
+		k, ok := constInt(first.Y)
+		if !ok {
+			continue
+		}
+		threshold := int64(-1)
+		switch first.Op {
+		case token.LSS:
+			threshold = k
+		case token.LEQ:
+			threshold = k + 1
+		}
+		if threshold < 0 {
+			continue
+		}
+		n++
+		c.Decide(threshold <= 3, "min-payload@"+fname(fn), p.InstrPos(first), fmt.Sprintf("payloads shorter than %d bytes are refused", threshold), fmt.Sprintf("payloads shorter than %d bytes are refused: a single NAL unit packet of %d bytes (the H.265 access-unit delimiter 46 01 x0) is discarded although it is a complete unit", threshold, threshold-1))
+	}
+	if n == 0 {
+		c.OK("min-payload", "", "the depacketisers refuse no payload by length alone at entry")
+	}
+}
+
+func ruleProxyReopens(c *Ctx) {
+	p := c.P
+	fn := p.Func("service/rtsp", "(*multicastProxy).AddMember")
+	if fn == nil {
+		c.Lost("rtsp.multicastProxy.AddMember", "not found")
+		return
+	}
+	c.touched(fname(fn))
+	type st struct{ Attached, Reopened bool }
+	res := RunPath(&PathRule[st]{Fn: fn, Init: []st{{}},
+		Transfer: func(s st, ins ssa.Instruction) []st {
+			if cc := callCommon(ins); cc != nil && cc.StaticCallee() != nil && strings.HasPrefix(cc.StaticCallee().Name(), "StartConsume") {
+				s.Attached = true
+				return []st{s}
+			}
+			if sto, ok := ins.(*ssa.Store); ok {
+				if f, _, ok := fieldAddr(sto.Addr); ok && f.Name() == "closed" {
+					if b, isc := constBool(sto.Val); isc && !b {
+						s.Reopened = true
+						return []st{s}
+					}
+				}
+			}
+			return nil
+		}})
+	c.paths += res.N
+	ok, any := true, false
+	for ret, sts := range res.Exits() {
+		for _, s := range sts {
+			if s.Attached {
+				any = true
+				if !s.Reopened {
+					ok = false
+					c.Bad("proxy-reopens", p.InstrPos(ret), "AddMember attaches the proxy to the stream without clearing its closed flag: after join, last member leaves, join again, the proxy is registered as a consumer (count 1, new socket) but Consume returns at `if proxy.closed` for every packet - the multicast group receives nothing")
+				}
+			}
+		}
+	}
+	if !any {
+		c.Lost("proxy-reopens", "AddMember no longer attaches the proxy to the stream")
+	} else if ok {
+		c.OK("proxy-reopens", p.Pos(fn.Pos()), "closed flag cleared whenever the proxy is attached")
+	}
 }
